@@ -257,11 +257,10 @@ def c02_c(ctx):
     # executor: cache key sorted, cached list filtered from sort_order
     eo = ctx.fn('elfi.executor:Executor.get_execution_order')
     ex2 = ctx.ex(eo)
-    keys = [s for (s, t, k) in ctx.stores(eo, "_['_executor_cache'][_]", expanded=True)
-            if k == 'assign'] + \
-           [s for (s, t, k) in ctx.stores(eo, "G.graph.get('_executor_cache', _)[_]")
-            if k == 'assign']
-    stores = [(s, t) for (s, t, k) in ctx.stores(eo, 'cache[_]', expanded=False) if k == 'assign']
+    stores = [(s, t) for (s, t, k) in ctx.stores(eo, "G.graph.get('_executor_cache', _)[_]")
+              if k == 'assign'] + \
+             [(s, t) for (s, t, k) in ctx.stores(eo, "G.graph['_executor_cache'][_]")
+              if k == 'assign']
     if not stores:
         raise AnchorMissing('get_execution_order does not fill its cache')
     for (s, t) in stores:
@@ -313,6 +312,16 @@ def c02_d(ctx):
     ctx.check(ok, rv, 'generator forwarded', 'distribution.rvs(..., random_state=random_state)',
               'the random_state argument is not forwarded to distribution.rvs', fn=rv,
               node=calls[0] if calls else rv.node)
+    oks = False
+    for c in calls:
+        kws = dict((k.arg, k.value) for k in c.keywords)
+        if 'size' in kws:
+            st = ctx.term(rv, kws['size'])
+            alts = st[1] if st[0] == 'phi' else (st,)
+            oks = all(match(a, pattern('(batch_size,)')) is not None or
+                      match(a, pattern('(batch_size,) + size')) is not None for a in alts)
+    ctx.check(oks, rv, 'one draw per row of the batch', 'size = (batch_size,) [+ size]',
+              'the number of draws is not batch_size', fn=rv, node=calls[0] if calls else rv.node)
     has_kw = 'random_state' in rv.all_params
     rc = ctx.fn('elfi.compiler:RandomStateCompiler.compile')
     edges = ctx.calls(rc, name='add_edge')
@@ -336,7 +345,11 @@ def c02_d(ctx):
         gs = [(t, pol) for (t, pol, _) in ctx.guards(rc, e)]
         flag = [(t, pol) for (t, pol) in gs if contains(t, "'_stochastic'")]
         others = [(t, pol) for (t, pol) in gs if not contains(t, "'_stochastic'")]
-        ctx.check(ok and flag and all(pol for (t, pol) in flag) and not others, rc,
+        pos_flag = all((pol and match(t, pattern("'_stochastic' in _['attr_dict']")) is not None)
+                       or (pol and match(t, pattern("_['attr_dict']['_stochastic']")) is not None)
+                       or (not pol and match(t, pattern("'_stochastic' not in _['attr_dict']"))
+                           is not None) for (t, pol) in flag)
+        ctx.check(ok and flag and pos_flag and not others, rc,
                   'all stochastic nodes',
                   'edge added for every node carrying _stochastic',
                   'the generator edge is not added for exactly the nodes flagged _stochastic',
@@ -458,6 +471,39 @@ def c02_f(ctx):
                   '{} is also written in {}'.format(fld, sorted(set(
                       f.qname for (f, n) in writers if not (f.cls is cc and f.name == '__init__')))),
                   fn=writers[0][0] if writers else None, node=writers[0][1] if writers else None)
+    # the entry points pass the user's seed on unchanged (only None selects a default)
+    gen = ctx.fn('elfi.model.elfi_model:ElfiModel.generate')
+    exg = ctx.ex(gen)
+    ccs = ctx.calls(gen, 'ComputationContext(*_)')
+    okg = False
+    for c in ccs:
+        kws = dict((k.arg, exg.term(k.value)) for k in c.keywords)
+        sv = kws.get('seed')
+        if sv is not None:
+            alts = sv[1] if sv[0] == 'phi' else (sv,)
+            okg = set(alts) <= {('param', 'seed'), ('const', 'global')} and \
+                ('param', 'seed') in alts
+            if okg and ('const', 'global') in alts:
+                # the fallback is selected by `seed is None` only
+                defs = [n for n in own_nodes(gen.node) if isinstance(n, ast.Assign) and
+                        isinstance(n.targets[0], ast.Name) and n.targets[0].id == 'seed']
+                okg = bool(defs) and all(
+                    exg.term(d.value) == ('const', 'global') and any(
+                        pol and match(t, pattern('seed is None')) is not None
+                        for (t, pol, _) in ctx.guards(gen, d)) for d in defs)
+    ctx.check(okg, gen, 'generate passes the seed on unchanged',
+              "seed = 'global' only when seed is None",
+              "generate() replaces a given seed (e.g. the falsy integer 0) by the global "
+              "generator", fn=gen, node=ccs[0] if ccs else gen.node)
+    pin = ctx.fn('elfi.methods.inference.parameter_inference:ParameterInference.__init__')
+    exp_ = ctx.ex(pin)
+    ccs = ctx.calls(pin, 'ComputationContext(*_)')
+    okp = bool(ccs) and all(dict((k.arg, exp_.term(k.value)) for k in c.keywords).get('seed') ==
+                            ('param', 'seed') for c in ccs)
+    ctx.check(okp, pin, 'inference passes the seed on unchanged',
+              'ComputationContext(..., seed=seed)',
+              'the inference method does not hand the given seed to its context', fn=pin,
+              node=ccs[0] if ccs else pin.node)
     init = ctx.own_method(cc, '__init__')
     sd = [s for (s, t, k) in ctx.stores(init, 'self._seed') if k == 'assign']
     ok = False
